@@ -344,6 +344,16 @@ def _stores_field(fi, field):
     return out
 
 
+def _co_targets(fi, field) -> list:
+    """[(value, names bound to the same value in that statement)] for the stores of `self.<field>` (`self.f = name = <value>`)."""
+    sn = fi.self_name
+    out = []
+    for x in ast.walk(fi.node):
+        if isinstance(x, ast.Assign) and any(isinstance(t, ast.Attribute) and t.attr == field and isinstance(t.value, ast.Name) and t.value.id == sn for t in x.targets):
+            out.append((x.value, {t.id for t in x.targets if isinstance(t, ast.Name)}))
+    return out
+
+
 def _request_field(ctx, cls, field) -> bool:
     """`self.<field>` remembers what the handle was asked to be opened with: wherever the class stores it (the constant default
     of __init__ aside), the stored value is - modulo local aliases, in the normalised view of the method that binds the
@@ -367,7 +377,9 @@ def _request_field(ctx, cls, field) -> bool:
         if not stored or not opened:
             continue
         facts = Facts(v.node)
-        if not all(facts.text(x) in opened for x in stored):
+        # (`self.f = mode = <value>`: the field and the name the file is opened with are bound to the same value)
+        also = {id(val): names for val, names in _co_targets(v, field)}
+        if not all(facts.text(x) in opened or (also.get(id(x), set()) & opened) for x in stored):
             return False
         binders.append(fi)
     if not binders:
